@@ -517,6 +517,20 @@ def random_trace(col, ci, cfg, rng, length, avoid_guard, wild=False):
         else:
             post, code, ok = do_step(col, ci, cfg, impl, pre, op, seq, record=False)
             if post.clip is None: break
+            if ok:
+                # derived views of the live object (which has a history) against a fresh object with the same content
+                try:
+                    live = (impl.cur.defectindices(), impl.cur.KrogerVink(), impl.cur.stoichiometry())
+                    fr = cfg.shell(np.array(post.occ, dtype=int), [list(l) for l in post.co])
+                    fresh = (fr.defectindices(), fr.KrogerVink(), fr.stoichiometry())
+                except Exception as e:
+                    live, fresh = repr(e), None
+                if live != fresh:
+                    col.violation("c28-derived-views", "%s, Nsolute=%d: after %s defectindices()/KrogerVink()/stoichiometry() of the edited object "
+                                  "(%r) differ from those of a fresh supercell with the same occupation and ordering (%r)" %
+                                  (cfg.label, cfg.Nsolute, [o[0] for o in seq + [op]][-6:], live, fresh),
+                                  dict(cfg=cfg.spec(), ops=[list(o) for o in seq + [op]], state_after=post._asdict(), evaluator="derived views"))
+                    ok = False
         trace.append((op, post, code))
         seq = seq + [op]
         pre = post
